@@ -75,7 +75,9 @@ class SimTransport:
         pass
 
     def get_write_buffer_size(self):
-        return 0
+        # above the high-water mark between pause_writing and resume_writing (that is what asyncio's flow control
+        # means), and a closed transport whose buffer was not drained keeps it until the loss is reported
+        return 70000 if (self.wpaused and not self.lost) else 0
 
     def abort(self):
         self.aborted = True
@@ -802,7 +804,16 @@ def gen_reauth_leave(rng, async_=False):
     for c in rng.sample(table[second][2], rng.randint(0, len(table[second][2]))):
         leaver.append(P.msgsubscribe(second, c))
         held.append(c)
-    if rng.random() < 0.3 and held:
+    stay = rng.random() < 0.4
+    if stay and held:
+        # it stays connected and gives up some of what it holds - preferably channels the NEW identity could not
+        # subscribe to itself: an UNSUBSCRIBE is honoured whatever the current permissions are
+        stale = [c for c in held if c not in (table[second][2] or [])]
+        for c in (rng.sample(stale, rng.randint(1, len(stale))) if stale else []) + ([rng.choice(held)] if rng.random() < 0.5 else []):
+            leaver.append(P.msgunsubscribe(second, c))
+        if rng.random() < 0.3:
+            leaver.append(P.msgsubscribe(second, rng.choice(table[second][2])) if table[second][2] else P.msgunsubscribe(second, 'nope'))
+    elif rng.random() < 0.3 and held:
         leaver.append(P.msgunsubscribe(second, rng.choice(held)))
     # a listener and a publisher for every channel the leaver ever held
     chans = sorted(set(held))
@@ -830,9 +841,10 @@ def gen_reauth_leave(rng, async_=False):
     if async_:
         for q in (0, 0, 1, 1, 1):
             events.append(gen_lookup(rng, table, q, None))
-    events.append(rng.choice([['L', 0], ['L', 0], ['E', 0]]))
-    if events[-1][0] == 'E' and rng.random() < 0.7:
-        events.append(['L', 0])
+    if not stay:
+        events.append(rng.choice([['L', 0], ['L', 0], ['E', 0]]))
+        if events[-1][0] == 'E' and rng.random() < 0.7:
+            events.append(['L', 0])
     cur = None
     for _ in range(rng.randint(1, 2)):
         for ident, c in pubs:
